@@ -97,24 +97,22 @@ impl ContainsPoint for Triangle {
             let s = p1.y * p3.x - p1.x * p3.y + (p3.y - p1.y) * p.x + (p1.x - p3.x) * p.y;
             let t = p1.x * p2.y - p1.y * p2.x + (p1.y - p2.y) * p.x + (p2.x - p1.x) * p.y;
 
+            // Determinant
+            let a = self.area_doubled();
+
+            // Reversing the point order negates `s`, `t` and the determinant. Normalize the signs
+            // to allow this algorithm to work with clockwise or counterclockwise triangles.
+            let (s, t, a) = if a < 0 { (-s, -t, -a) } else { (s, t, a) };
+
             if (s < 0) != (t < 0) {
                 false
             } else {
-                // Determinant
-                let a = self.area_doubled();
-
                 // If determinant is zero, triangle is colinear and can never contain a point.
                 if a == 0 {
                     return false;
                 }
 
-                // This check allows this algorithm to work with clockwise or counterclockwise
-                // triangles.
-                if a < 0 {
-                    s <= 0 && s + t >= a
-                } else {
-                    s >= 0 && s + t <= a
-                }
+                s >= 0 && s + t <= a
             }
         };
 
